@@ -12,7 +12,7 @@ for d in seeded/*/; do
   if ! git -C /repo apply --check /verif/$patch 2>/dev/null; then echo "$id  PATCH-DOES-NOT-APPLY" >> $out; continue; fi
   git -C /repo apply /verif/$patch
   ./check $prop > /tmp/seedrun.txt 2>&1; rc=$?
-  git -C /repo checkout -- .; git -C /verif checkout -- lean/Usid/Generated
+  git -C /repo checkout -- .; git -C /verif checkout -- lean/Usid/Generated evidence
   v=$(grep -c '^VIOLATION' /tmp/seedrun.txt)
   nf=$(grep -c 'no-failing-input-found' /tmp/seedrun.txt)
   echo "$id  exit=$rc violations=$v without-input=$nf" >> $out
